@@ -37,6 +37,8 @@ THEOREMS = [
     "Nix.C19.C19_factories_stamp_both",
     "Nix.C19.C19_factories_cover_kinds",
     "Nix.C19.C19_create_refines_source",
+    "Nix.C19.C19_file_init_effect",
+    "Nix.C19.C19_open_refines_source",
     "Nix.C19.C19_switch_written_only_by_assignment",
     "Nix.C19.C19_switch_follows_assignments",
     "Nix.C19.C19_calls_keep_switch",
@@ -492,12 +494,21 @@ class Session:
         except Exception as ex:
             res = "raised:" + exc_name(ex)
             self.last_exc = "%s: %s" % (type(ex).__name__, str(ex)[:200])
+        if name == "set_clock" and res == "done" and getattr(self, "last_out", None) is not None:
+            # only the harness's clock variable changed, no library code ran: what the file and the handles
+            # report is what they reported after the previous operation
+            out = {k: v for k, v in self.last_out.items() if k != "untracked"}
+            out["res"] = "done"
+            self.last_views = self.last_views_kept
+            return out
         out = {"res": res, "auto": bool(self.f.auto_update_timestamps), "stamps": self.stamps()}
+        self.last_out = out
+        self.last_views_kept = []
         if self.keep:
             # a handle obtained earlier must report what a fresh handle reports (the model has no per-handle state:
             # the key is present only when they differ)
             fresh = {r[0]: r[1:] for r in out["stamps"]}
-            self.last_views = self.views()
+            self.last_views = self.last_views_kept = self.views()
             stale = [r for r in self.last_views if fresh.get(r[0]) != r[2:]]
             if stale:
                 out["stale_handles"] = stale[:4]
@@ -1018,7 +1029,10 @@ class Gen:
         args = build(self)
         if args is None:
             return None
-        if m == "append_range_dimension_using_self" and inp == "good" and self.ents[e].get("unsorted"):
+        if m == "append_range_dimension_using_self" and inp == "good" and (self.ents[e].get("unsorted")
+                                                                           or self.clock_bad):
+            # (under a clock datetime cannot represent the dimension's link object cannot be stamped: the call is
+            # refused whatever the switch says - outside the modelled range of clocks)
             return None
         if m in ("write_direct", "append", "__setitem__", "data_extent") and via is None:
             self.ents[e]["unsorted"] = True
